@@ -27,6 +27,7 @@ import (
 	"github.com/evolbioinfo/goalign/io/phylip"
 	"github.com/evolbioinfo/goalign/io/utils"
 
+	"verif/lib/conc"
 	"verif/lib/fmtio"
 	"verif/lib/gen"
 	"verif/lib/h"
@@ -1032,6 +1033,7 @@ func main() {
 	mon.Floor("rows:1", 300)
 	mon.Floor("witness", len(witnesses))
 	cliFloors()
+	mon.Floor("concurrent:calls", 500)
 	mon.Main("C02", []mon.Sub{
 		{Name: "witness", Quick: len(witnesses), Thorough: len(witnesses), Run: runWitness},
 		{Name: "keywords", Quick: kwCount(), Thorough: kwCount(), Run: runKeywords},
@@ -1041,6 +1043,7 @@ func main() {
 		{Name: "chain", Quick: 6000, Thorough: 150000, Run: runChain},
 		{Name: "files", Quick: 2600, Thorough: 52000, Run: runFiles},
 		// the same round trip through the command `goalign reformat` (cli.go): one process per case
+		{Name: "concurrent", Quick: 64, Thorough: 1200, Race: true, Run: func(c *mon.Case) { conc.Run(c, "formats") }},
 		{Name: "cli", Quick: 270, Thorough: 6300, Run: runCli},                // 6 (140 at the thorough tier) rounds over 5 sub commands x 9 input modes
 		{Name: "cli-refused", Quick: 108, Thorough: 1440, Run: runCliRefused}, // 36 kinds of refused input x 3 (all 4 at the thorough tier) sub commands
 	})
